@@ -1532,13 +1532,30 @@ impl<'a, 'b, W: Write> Serializer for &'a mut YamlSerializer<'b, W> {
         variant: &'static str,
         _len: usize,
     ) -> Result<Self::SerializeTupleVariant> {
-        if self.at_line_start {
-            self.write_indent(self.depth)?;
-        }
+        // Same three positions as for struct variants: value of a mapping key (the label goes
+        // to the next line, one level under the key), element after a list dash (the label is
+        // inline, the elements two levels under the dash), or a line of its own.
+        let depth_next = if self.pending_space_after_colon {
+            self.pending_space_after_colon = false;
+            self.newline()?;
+            let base = self.current_map_depth.unwrap_or(self.depth) + 1;
+            self.write_indent(base)?;
+            base + 1
+        } else {
+            if self.at_line_start {
+                self.write_indent(self.depth)?;
+            }
+            match self.after_dash_depth.take() {
+                Some(d) => {
+                    self.pending_inline_map = false;
+                    d + 2
+                }
+                None => self.depth + 1,
+            }
+        };
         self.write_plain_or_quoted(variant)?;
         self.out.write_str(":\n")?;
         self.at_line_start = true;
-        let depth_next = self.depth + 1;
         Ok(TupleVariantSer {
             ser: self,
             depth: depth_next,
